@@ -16,7 +16,9 @@ from contracts.metrics import canary_summary
 
 
 def deductive(tier="quick", seed=0):
-    d = run_tasks(H.update_hof_tasks() + H.tournament_tasks())
+    from contracts import popinit
+
+    d = run_tasks(H.update_hof_tasks() + H.tournament_tasks() + popinit.tasks())
     can = run_tasks(H.canary_tasks())
     d.errors.extend(can.errors)
     d.canaries = canary_summary(can)
